@@ -155,6 +155,19 @@ def check(P, rep):
             rep.check(ok, 'C07.G', '%s::%s:%s:%s' % (cn, en, e.kind, fmt(subj)),
                       'debit/transfer/burn of parameter %s is must-guarded by its require_auth (or an allowance spend under the spender\'s auth)' % fmt(subj),
                       esite(g, e), e.describe()[:200], w)
+    # consuming a message FOR an address: in every gateway entry, a write of `Executed` lies behind the stored approval of a message whose
+    # contract_address authorised the call (validate_message is in the table above; this covers aliases that share its helper)
+    from rules.c02 import consume_write_ok
+    for cn, en in P.all_entries():
+        if cn != 'axelar_gateway' or en == 'validate_message':
+            continue
+        g = P.graph(cn, en)
+        for e in state_effects(g):
+            if e.kind == 'sw' and key_variant(e.key)[0] == 'MessageApproval' and any(variant_name(a) == 'Executed' for a in alts(e.val)) \
+                    and not within_entry(g, e, ['validate_message']):
+                swept += 1
+                rep.check(consume_write_ok(g, e), 'C07.G', '%s::%s:consume' % (cn, en),
+                          'a message is consumed only for an address that authorised the call (the approved message\'s contract_address)', esite(g, e), e.describe()[:200])
     # a credit is not a debit in disguise: every balance write on a key named by an entry parameter that has NOT authorised the
     # call lies behind `0 <= amount` for the amount it moves (a negative "mint"/"transfer" to X would debit X without X's auth)
     ncred = 0
